@@ -11,7 +11,7 @@ from random import randint
 
 from .distribution import BaseDistribution
 from .exceptions import ditException
-from .helpers import parse_rvs
+from .helpers import parse_rvs, RV_MODES
 from .npdist import Distribution
 from .npscalardist import ScalarDistribution
 from .utils import digits, powerset
@@ -951,11 +951,7 @@ def product_distribution(dist, rvs=None, rv_mode=None, base=None):
         raise Exception("A joint distribution is required.")
 
     if rvs is None:
-        names = dist.get_rv_names()
-        if names is None:
-            names = range(dist.outcome_length())
-
-        indexes = [[i] for i in names]
+        indexes = [[i] for i in range(dist.outcome_length())]
 
     else:
         # We do not allow repeats and want to keep the order.
@@ -968,7 +964,8 @@ def product_distribution(dist, rvs=None, rv_mode=None, base=None):
     if len(all_indexes) != len(set(all_indexes)):
         raise Exception('The elements of `rvs` have nonzero intersection.')
 
-    marginals = [dist.marginal(index_list, rv_mode=rv_mode) for index_list in indexes]
+    # `indexes` are variable indices by now, whatever `rv_mode` the caller used.
+    marginals = [dist.marginal(index_list, rv_mode=RV_MODES.INDICES) for index_list in indexes]
     ctor = dist._outcome_ctor
     ops = dist.ops
 
@@ -981,9 +978,9 @@ def product_distribution(dist, rvs=None, rv_mode=None, base=None):
             outcome.extend(pair[0])
             prob.append(pair[1])
         outcomes.append(ctor(outcome))
-        pmf.append(ops.mult_reduce(prob))
+        pmf.append(ops.mult_reduce(np.asarray(prob, dtype=float)))
 
-    d = Distribution(outcomes, pmf, validate=False)
+    d = Distribution(outcomes, pmf, base=dist.get_base(), validate=False)
 
     # Maybe we should use ditParams['base'] when base is None?
     if base is not None:
